@@ -4,7 +4,7 @@ import json, sys
 
 CHECKS = {
  "C01": dict(tech="runtime monitoring: admission-check oracle over recorded parse/extend histories",
-   text="Every source document of every generated history (exhaustive tiny histories, seeded random histories incl. wide/deep/long-list/many-document profiles, deterministic threshold families around powers of two; quick ~0.8M, thorough ~4.9M) is walked against the schema extracted from the rendered structs: each attribute/child has a field, non-Option fields are present in every occurrence, non-Vec children occur at most once, character data only where a text field or String typing exists. Held-on-observed-executions, not a proof.",
+   text="Every source document of every generated history (exhaustive tiny histories, seeded random histories incl. wide/deep/long-list/many-document profiles, exhaustive occurrence patterns (absent/once/twice per child over up to 5-6 occurrences), deterministic threshold families around powers of two, steps on fresh threads, rejected parses beforehand; quick ~0.9M, thorough ~6M) is walked against the schema extracted from the rendered structs: each attribute/child has a field, non-Option fields are present in every occurrence, non-Vec children occur at most once, character data only where a text field or String typing exists. Held-on-observed-executions, not a proof.",
    note="Trusts the AST serializer (ground truth is the generated AST, not a parse), the line-grammar extractor of the rendered text and quick-xml 0.37.5's default reader.", ref="4/C01"),
  "C03": dict(tech="runtime monitoring: history + executable reference model (equality oracle)",
    text="The canonical schema extracted from the rendered output (and the Element tree API) is compared for equality with an independent ~60-line reference inference computed from the document ASTs, on exhaustive tiny histories and seeded random histories.",
